@@ -69,7 +69,7 @@ def _fold_face_to_cell(f):
     """Fold face_to_cell for grids of 1, 2 and 3 dimensions with a symbolic evaluation point: the in-place updates of the result, in any
     order, must be exactly -- per axis d -- `out[:, .., :-1, ..., d] += pt[d] * R_d` and `out[:, .., 1:, ..., d] += (1 - pt[d]) * R_d`
     with R_d = flat_flux[grid.faces[d]].reshape(grid.faces_shape[d], order='F').  Disagreements, or None outside the folding language."""
-    from ..fold import Arr, Folder, Obj, Opaque, Raised, Refuse, Sym
+    from ..fold import Arr, Folder, Obj, Opaque, Raised, Refuse, Sym, escapes
 
     bad = []
     for dim in (1, 2, 3):
@@ -88,7 +88,7 @@ def _fold_face_to_cell(f):
         if not isinstance(r, Arr) or tuple(r.shape) != (4, 5, 6)[:dim] + (dim,):
             bad.append(f"dim {dim}: result is {r!r}, documented zero array of shape (*grid.shape, dim)")
             continue
-        if any(t.args[0] is not r for t in ups) or any(t.fn == "setitem" for t in fo.trace if isinstance(t, Sym)):
+        if any(t.args[0] is not r for t in ups) or any(t.fn == "setitem" for t in fo.trace if isinstance(t, Sym)) or escapes(fo.trace, r):
             return None
         env = {f.params[0]: grid, f.params[1]: flux, f.params[2]: ([ptv] if dim == 1 else ptv)}
         ref = Folder(symbolic=True)
